@@ -1,4 +1,5 @@
 import OmplModel.Model.RRT
+import OmplModel.Model.RRTConnect
 import OmplModel.Driver.Common
 /-!
 Line-protocol driver for the RRT model at `Float` over R^n with axis-aligned box obstacles
@@ -15,6 +16,9 @@ Line-protocol driver for the RRT model at `Float` over R^n with axis-aligned box
     draw <g|u> <state>                 what ended up in rstate in one loop iteration (recorded by the harness)
     solve                              -> status line
     tree / path / pdef                 -> the tree in insertion order, the reported path, the problem definition
+    ptc <n>                            RRTConnect: the termination condition answers false n times, then true
+    solvec                             RRTConnect::solve on the `u` draws (goal samples come from the goal itself)
+    trees / treeg                      RRTConnect: start tree / goal tree (parent:state:root)
 
 Everything numeric is computed here with the operations and operation order of the C++ code
 (RealVectorStateSpace::distance / interpolate / getMaximumExtent / satisfiesBounds,
@@ -47,6 +51,9 @@ structure Env where
   starts : Array State := #[]
   draws : Array (Draw State) := #[]
   report : Option (Report State Float) := none
+  ptc : Nat := 0
+  reportC : Option (OmplModel.RRTConnect.Report State Float) := none
+  added : Option (List State × Bool × Float) := none
 
 /-- `RealVectorStateSpace::distance` -/
 def rvDist (a b : State) : Float := Id.run do
@@ -111,9 +118,37 @@ def cfgOf (e : Env) : Cfg State Float where
   threshold := e.thr
   addIntermediate := e.interm
 
+/-- `RealVectorStateSpace::equalStates` -/
+def rvEqual (a b : State) : Bool :=
+  (List.range a.size).all (fun i => !(Float.abs (a[i]! - b[i]!) > eps * 2.0))
+
+def cfgC (e : Env) : OmplModel.RRTConnect.Cfg State Float where
+  dist := rvDist
+  interp := rvInterp
+  lt a b := a < b
+  div a b := a / b
+  frac j n := j.toFloat / n.toFloat
+  inf := inf
+  zero := 0.0
+  maxDistance := effRange e
+  bounds := inBounds e
+  valid := isValid e
+  checkMotion := checkMotion e
+  segCount := segCount e
+  equalStates := rvEqual
+  goalDist s := rvDist s e.goal
+  goalSample _ := e.goal
+  maxGoalSamples := 1
+  pairValid _ _ := true
+  addIntermediate := e.interm
+  connectFuel := 1000000
+
 def floats? (ts : List String) : Option (Array Float) := (ts.mapM parseFloatBits?).map (·.toArray)
 
 def showState (s : State) : String := ",".intercalate (s.toList.map floatBits)
+
+def showNodeC (nd : OmplModel.RRTConnect.Node State) : String :=
+  (match nd.parent with | some p => toString p | none => "-1") ++ ":" ++ showState nd.state ++ ":" ++ showState nd.root
 
 def init (ts : List String) : Option Env :=
   match ts with
@@ -174,11 +209,31 @@ def step (e : Env) (ts : List String) : Env × String :=
       let (a, ap, df) := match r.added with
         | some (_, ap, df) => ("1", (if ap then "1" else "0"), floatBits df)
         | none => ("0", "-", "-")
-      ({ e with report := some r },
+      ({ e with report := some r, added := r.added },
         s!"status={r.status.name} bool={if r.status.toBool then 1 else 0} added={a} approx={ap} diff={df} " ++
         s!"unused={r.unusedDraws} lvs={floatBits (lvs e)} range={floatBits (effRange e)} " ++
         s!"nstart={r.pis.addedStartStates} ntree={r.tree.size}")
     else (e, "bad-op")
+  | ["ptc", n] => match parseNat? n with | some n => ({ e with ptc := n }, "ok") | none => (e, "bad-op")
+  | ["solvec"] =>
+    if e.lo.size = e.dim ∧ e.hi.size = e.dim ∧ e.goal.size = e.dim then
+      let us := (e.draws.toList.filter (fun d => !d.fromGoal)).map (·.state)
+      let r := OmplModel.RRTConnect.solve (cfgC e) e.starts e.ptc true us
+      let a := match r.added with | some _ => "1" | none => "0"
+      ({ e with reportC := some r, added := r.added },
+        s!"status={r.status.name} bool={if r.status.toBool then 1 else 0} added={a} " ++
+        s!"unused={r.unusedDraws} short={if r.scriptShort then 1 else 0} fuelout={if r.fuelOut then 1 else 0} " ++
+        s!"lvs={floatBits (lvs e)} range={floatBits (effRange e)} " ++
+        s!"nstart={r.pis.addedStartStates} ngoal={r.pis.sampledGoalsCount} starttree={if r.startTree then 1 else 0}")
+    else (e, "bad-op")
+  | ["trees"] =>
+    match e.reportC with
+    | some r => (e, joinSp (s!"treeS n={r.tStart.size}" :: r.tStart.toList.map showNodeC))
+    | none => (e, "bad-op")
+  | ["treeg"] =>
+    match e.reportC with
+    | some r => (e, joinSp (s!"treeG n={r.tGoal.size}" :: r.tGoal.toList.map showNodeC))
+    | none => (e, "bad-op")
   | ["tree"] =>
     match e.report with
     | some r =>
@@ -186,25 +241,23 @@ def step (e : Env) (ts : List String) : Env × String :=
         (match nd.parent with | some p => toString p | none => "-1") ++ ":" ++ showState nd.state)))
     | none => (e, "bad-op")
   | ["path"] =>
-    match e.report with
-    | some r =>
-      match r.added with
+    if e.report.isSome || e.reportC.isSome then
+      match e.added with
       | some (p, _, _) => (e, joinSp (s!"path n={p.length}" :: p.map showState))
       | none => (e, "path none")
-    | none => (e, "bad-op")
+    else (e, "bad-op")
   | ["pdef"] =>
-    match e.report with
-    | some r =>
+    if e.report.isSome || e.reportC.isSome then
       -- the problem definition (fresh: no solutions) after the run, through the L0 model
       let pd : Pdef State (List State) Float := { starts := e.starts }
-      let pd' := match r.added with
+      let pd' := match e.added with
         | some (p, ap, df) => addSolutionPath 0.0 pd p ap df
         | none => pd
       let lt : Float → Float → Bool := fun a b => decide (a < b)
       let better : List State → List State → Bool := fun _ _ => false
       (e, s!"pdef count={getSolutionCount pd'} approx={if hasApproximateSolution lt better pd' then 1 else 0} " ++
         s!"diff={floatBits (getSolutionDifference lt better (-1.0) pd')}")
-    | none => (e, "bad-op")
+    else (e, "bad-op")
   | _ => (e, "bad-op")
 
 end OmplModel.Driver.RRTDrv
